@@ -28,6 +28,12 @@ def check(ctx: Ctx) -> None:
     r2(ctx)
     r3(ctx)
     r4(ctx)
+    # the collector's handling of markers it cannot list / stat / read must keep protection in force (fail closed), and the
+    # marker listing it relies on must be complete
+    from .c07 import r1 as c07_r1
+    c07_r1(ctx, "C06.R5")
+    from .c20 import r5 as c20_r5
+    c20_r5(ctx, "C06.R6")
 
 
 def r1(ctx: Ctx, rid: str) -> None:
@@ -89,8 +95,8 @@ def r1(ctx: Ctx, rid: str) -> None:
            "self._inflight_markers.append(marker_path)", nontrivial=False)
 
 
-def r2(ctx: Ctx) -> None:
-    ctx.rule("C06.R2", "marker removed only after the commit point: marker-deleting functions are _finish_committed and _rollback; "
+def r2(ctx: Ctx, rid: str = "C06.R2") -> None:
+    ctx.rule(rid, "marker removed only after the commit point: marker-deleting functions are _finish_committed and _rollback; "
              "_finish_committed is only called after a commit-point call or on the empty-transaction branch; _rollback "
              "removes markers after the files", 4)
     tr = ctx.prog.cls("transaction.Transaction")
@@ -102,7 +108,7 @@ def r2(ctx: Ctx) -> None:
             if "self._inflight_markers" in org["names"]:
                 owners.append((m, d))
     names = sorted({m.name for m, _d in owners})
-    ctx.ob("C06.R2", None, "marker-delete owners", None, names == ["_finish_committed", "_rollback"],
+    ctx.ob(rid, None, "marker-delete owners", None, names == ["_finish_committed", "_rollback"],
            f"functions deleting in-flight markers: {names}", text="marker-delete-census",
            file="src/datashard/transaction.py", line=0)
     from .c04 import commit_chain
@@ -125,7 +131,7 @@ def r2(ctx: Ctx) -> None:
         if not after_cp and not empty and cps:
             w = find_path(g, g.entry, [n.id], avoid=[c.id for c in cps], labels=NORMAL)
             after_cp = w is None
-        ctx.ob("C06.R2", caller, "_finish_committed only after the commit point (or empty transaction)", n, after_cp or empty,
+        ctx.ob(rid, caller, "_finish_committed only after the commit point (or empty transaction)", n, after_cp or empty,
                "markers stay in place until the pointer flip has returned")
     rb = ctx.fn("transaction.Transaction._rollback")
     rg = ctx.cfg(rb)
@@ -134,7 +140,7 @@ def r2(ctx: Ctx) -> None:
     file_d = [d for d in dels if "self._written_files" in sl.origins(path_arg(d), d.id)["names"]]
     mark_d = [d for d in dels if "self._inflight_markers" in sl.origins(path_arg(d), d.id)["names"]]
     ok = bool(file_d) and bool(mark_d) and all(find_path(rg, m.id, [f.id], labels=NORMAL) is None for m in mark_d for f in file_d)
-    ctx.ob("C06.R2", rb, "_rollback removes markers after the files", mark_d[0] if mark_d else None, ok,
+    ctx.ob(rid, rb, "_rollback removes markers after the files", mark_d[0] if mark_d else None, ok,
            "a rolled-back file is deleted by its own transaction before its protection disappears")
 
 
